@@ -8,6 +8,7 @@
 package verifkit
 
 import (
+	"strings"
 	"bytes"
 	"fmt"
 	"math/rand"
@@ -92,6 +93,7 @@ type Sched struct {
 	Drift   int      // script steps that could not be followed
 	Blocked int      // releases that ended in the watchdog
 	prio    map[*G]int
+	scriptWaits int
 }
 
 func NewSched(seed int64) *Sched {
@@ -272,6 +274,12 @@ func (s *Sched) pick(p []*G, stepNo int) *G {
 				s.Script = s.Script[1:]
 				return g
 			}
+			// a goroutine the executor has just spawned may not have reached its first point yet: give it a moment
+			if g == nil && strings.HasPrefix(st.G, s.AdoptPrefix) && s.scriptWaits < 40 {
+				s.scriptWaits++
+				return nil
+			}
+			s.scriptWaits = 0
 			// the named goroutine is not where the model says: drift, drop the step
 			if g == nil || g.state == stDone || g.state == stParked {
 				s.Drift++
@@ -351,6 +359,16 @@ func (s *Sched) Run() string {
 		}
 		s.mu.Lock()
 		g := s.pick(p, stepNo)
+		if g == nil {
+			// the script waits for a goroutine that has not arrived yet
+			s.mu.Unlock()
+			stepNo--
+			select {
+			case <-s.arrive:
+			case <-time.After(500 * time.Microsecond):
+			}
+			continue
+		}
 		g.state = stRunning
 		s.mu.Unlock()
 		g.wake <- struct{}{}
